@@ -93,6 +93,54 @@ class Check(PropertyCheck):
                     if a.shape != b.shape or not np.array_equal(a, b):
                         res.append(("frame-content", f"frame {k} of {len(history)} is not the chart of the first {k} dispatched operations "
                                     f"(shapes {a.shape} / {b.shape})"))
+                # the video of the same history, written by the real writer and read back: one frame per dispatched operation
+                if seed % 2 == 0:
+                    from job_shop_lib.visualization import create_gantt_chart_video
+                    try:
+                        create_gantt_chart_video(inst, video_path=os.path.join(tmp, "x.mp4"), frames_dir=os.path.join(tmp, "vf"),
+                                                 remove_frames=True, schedule_history=history)
+                        n_video = sum(1 for _ in imageio.get_reader(os.path.join(tmp, "x.mp4")))
+                    except Exception as e:  # pylint: disable=broad-except
+                        res.append(("video-failed", f"create_gantt_chart_video raised {type(e).__name__} ({str(e)[:80]}) for a history of "
+                                    f"{len(history)} operations of an instance with {J} jobs"))
+                    else:
+                        if n_video != len(history):
+                            res.append(("frame-count", f"the video has {n_video} frames for a history of {len(history)}"))
+                # the same through an environment's render(): two episodes, the GIF of the second one shows the second history
+                if seed % 3 == 1:
+                    from job_shop_lib.graphs import build_disjunctive_graph
+                    from job_shop_lib.reinforcement_learning import SingleJobShopGraphEnv
+                    from job_shop_lib.dispatching.feature_observers import FeatureObserverType
+                    env = SingleJobShopGraphEnv(build_disjunctive_graph(inst), [FeatureObserverType.IS_READY], render_mode="save_gif",
+                                                render_config={"gif_config": {"gif_path": os.path.join(tmp, "e.gif"),
+                                                                              "frames_dir": os.path.join(tmp, "ef"), "remove_frames": False}})
+                    try:
+                        for ep in range(2):
+                            env.reset()
+                            done, second = False, []
+                            while not done:
+                                ready = env.dispatcher.available_operations()
+                                op = ready[r.randrange(len(ready))]
+                                second.append(op.operation_id)
+                                _, _, done, _, _ = env.step((op.job_id, op.machines[0]))
+                            env.render()
+                        n_env = len(imageio.mimread(os.path.join(tmp, "e.gif"), memtest=False))
+                        if n_env != len(second):
+                            res.append(("frame-count", f"env.render(): the GIF of the second episode has {n_env} frames for {len(second)} steps"))
+                        twin = jsl.Dispatcher(inst)
+                        first_op = next(o for job in inst.jobs for o in job if o.operation_id == second[0])
+                        twin.dispatch(first_op, first_op.machines[0])
+                        fig = get_partial_gantt_chart_plotter()(twin.schedule, env.dispatcher.schedule.makespan(), twin.available_operations(),
+                                                                twin.current_time())
+                        ref = os.path.join(tmp, "eref.png")
+                        fig.savefig(ref, bbox_inches="tight")
+                        plt.close(fig)
+                        names = sorted(os.listdir(os.path.join(tmp, "ef")), key=lambda n: (len(n), n))
+                        a, b = imageio.imread(os.path.join(tmp, "ef", names[0])), imageio.imread(ref)
+                        if a.shape != b.shape or not np.array_equal(a, b):
+                            res.append(("frame-content", "env.render(): the first frame of the second episode is not the chart of its first step"))
+                    except Exception as e:  # pylint: disable=broad-except
+                        res.append(("gif-failed", f"env.render() (save_gif) raised {type(e).__name__}: {str(e)[:100]}"))
         finally:
             shutil.rmtree(tmp, ignore_errors=True)
         return res[:3]
